@@ -51,7 +51,7 @@ MUTANTS = [
     ("start_env_ignores_behavior", "process.posix.c", "options.env.behavior == REPROC_ENV_EMPTY ? NULL", "options.env.behavior == REPROC_ENV_EXTEND ? NULL", "process_start_child", "C03/exec.environment_is_parent_then_extra"),
     ("start_program_not_prefixed", "process.posix.c", "options.working_directory && path_is_relative(argv[0])", "options.working_directory && !path_is_relative(argv[0])", "process_start_child", "C03+C04/exec.program_is_argv0_or_cwd_prefixed"),
     ("start_pid_not_stored", "process.posix.c", "  *process = child;\n  r = 0;", "  r = 0;", "process_start_parent", "C04+C06/process_start.success_is_live_child_that_executed"),
-    ("start_child_failure_not_reaped", "process.posix.c", "    r = waitpid(child, NULL, 0);\n    r = r < 0 ? -errno : -child_errno;\n    goto finish;", "    r = -child_errno;\n    goto finish;", "process_start_parent", "C04+C05+C06/process_start.failure_leaves_no_child_and_no_pid"),
+    ("start_child_failure_not_reaped", "process.posix.c", "    do {\n      r = waitpid(child, NULL, 0);\n    } while (r < 0 && errno == EINTR);\n    r = r < 0 ? -errno : -child_errno;\n    goto finish;", "    r = -child_errno;\n    goto finish;", "process_start_parent", "C04+C05+C06/process_start.failure_leaves_no_child_and_no_pid"),
     ("setup_input_blocking", "reproc.c", "  r = pipe_nonblocking(*pipe, true);\n  if (r < 0) {\n    return r;\n  }\n", "", "setup_input", "C17/os.write.input_nonblocking"),
     ("setup_input_restarts", "reproc.c", "r = pipe_write(*pipe, data + written, size - written);", "r = pipe_write(*pipe, data, size - written);", "setup_input", "C02/os.write.input_cursor"),
     ("setup_input_keeps_stdin_open", "reproc.c", "  *pipe = pipe_destroy(*pipe);\n\n  return 0;\n}\n\nstatic int expiry", "  return 0;\n}\n\nstatic int expiry", "setup_input", "C02+C09+C14/setup_input.stdin_closed_after_input"),
@@ -75,6 +75,9 @@ MUTANTS = [
     ("drain_skips_close_notification", "drain.c", "    if (r < 0 && r != REPROC_EPIPE) {\n      break;\n    }", "    if (r == REPROC_EPIPE) {\n      continue;\n    }\n    if (r < 0) {\n      break;\n    }", "reproc_drain", "C16/drain.loop_invariant_preserved_by_an_arbitrary_iteration"),
     ("drain_ignores_sink_failure", "drain.c", "    r = sink.function(stream, buffer, bytes_read, sink.context);\n    if (r != 0) {\n      break;\n    }", "    r = sink.function(stream, buffer, bytes_read, sink.context);\n    if (r < 0) {\n      break;\n    }", "reproc_drain", "C16/drain.loop_invariant_preserved_by_an_arbitrary_iteration"),
     ("drain_deadline_as_success", "drain.c", "      r = REPROC_ETIMEDOUT;\n      break;", "      r = 0;\n      break;", "reproc_drain", "C16/drain.zero_only_when_both_output_streams_are_closed"),
+    ("start_error_pipe_read_not_retried", "process.posix.c", "  do {\n    r = (int) read(pipe.read, &child_errno, sizeof(child_errno));\n  } while (r < 0 && errno == EINTR);", "  r = (int) read(pipe.read, &child_errno, sizeof(child_errno));", "process_start_parent", "C04+C06/process_start.success_is_live_child_that_executed"),
+    ("fork_waitpid_not_retried", "process.posix.c", "      do {\n        r = waitpid(child, NULL, 0);\n      } while (r < 0 && errno == EINTR);", "      r = waitpid(child, NULL, 0);", "process_fork_parent", "C04+C05/process_fork.failure_leaves_no_child"),
+    ("redirect_fallback_not_recorded", "redirect.c", "          redirect->type = REPROC_REDIRECT_DISCARD;", "          ;", "redirect_init", "C05/redirect_init.null_device_fallback_is_recorded_for_release"),
     ("read_wrong_stream", "reproc.c", "pipe_type *pipe = stream == REPROC_STREAM_OUT ? &process->pipe.out\n                                                : &process->pipe.err;", "pipe_type *pipe = stream == REPROC_STREAM_OUT ? &process->pipe.err\n                                                : &process->pipe.out;", "reproc_read", "C02/reproc_read.one_read_on_that_stream"),
     ("read_epipe_not_sticky", "reproc.c", "  if (r == REPROC_EPIPE) {\n    *pipe = pipe_destroy(*pipe);\n  }", "  if (r == REPROC_EPIPE) {\n    pipe_destroy(*pipe);\n  }", "reproc_read", "C02/reproc_read.epipe_is_sticky"),
     ("close_not_idempotent", "reproc.c", "      process->pipe.in = pipe_destroy(process->pipe.in);\n      return 0;", "      pipe_destroy(process->pipe.in);\n      return 0;", "reproc_close", "C02+C14/reproc_close.closes_exactly_that_stream"),
@@ -94,7 +97,7 @@ def one(m, keep=False):
             return name, "MUTATION-DOES-NOT-APPLY", ""
         open(p, "w").write(s.replace(old, new, 1))
         env = dict(os.environ, VERIF_REPO=top, VERIF_BUILD_SUFFIX="." + name)
-        defs = ["-DVERIF_EXCLUDE_D11"]
+        defs = []
         r = subprocess.run([os.path.join(VERIF, "verif"), "harness", harness] + defs, capture_output=True, text=True, env=env)
         refuted = [l.split()[1] for l in r.stdout.splitlines() if l.strip().startswith("FAILURE") and "canary/" not in l and "reach/" not in l]
         if "NO-VERDICT" in r.stdout and label not in refuted:
